@@ -108,6 +108,9 @@ func zvCFollow(q vrt.ConcInst) bool {
 
 func zvCRun(pid string, kinds []int, share, lin bool) {
 	vrt.ConcShapes = 2
+	if pid == "C01" {
+		vrt.ConcShapes = 1 // all eleven methods pairwise; triples exceed the path budget
+	}
 	vrt.ConcSelectors = 2
 	vrt.MapOrderMode(2) // maps are ranged in insertion order here: order-dependence is C08/C14's subject
 	stored := [2]bool{vrt.Choice(2) == 1, vrt.Choice(2) == 1}
@@ -124,6 +127,7 @@ func ZvC01_Cache() { zvCRun("C01", zvCAll, true, false) }
 // sequential references would read the clock at other instants), only race/panic/deadlock/usable.
 func ZvC01_CacheClock() {
 	vrt.ConcSelectors = 1 // one key: every call meets every other on it
+	vrt.ConcShapes = 1
 	vrt.ConcSkipPrecheck = true
 	vrt.MapOrderMode(2)
 	exp := time.Duration(vrt.Int())
